@@ -214,6 +214,9 @@ class _Builder:
     def capacity(self, elem_bits: int, budget: int) -> int:
         d = self.draw
         maxcap = max(1, min(65535, budget // max(1, elem_bits)))
+        if elem_bits == 0:
+            # arrays of EMPTY messages cost no bits but one object per element in every runtime: keep them small
+            maxcap = 40
         choice = d(st.integers(0, 19))
         if choice < 14:
             cap = d(st.integers(1, 5))
@@ -243,7 +246,7 @@ class _Builder:
         cap_text = None
         cap_const = None
         if self.feat.cap_consts and self.feat.consts and d(st.integers(0, 5)) == 0:
-            cs = [(t, c) for t, c in self.const_candidates() if isinstance(c.value, int) and not isinstance(c.value, bool) and 1 <= c.value <= 65535 and c.value * bits <= max(budget, bits)]
+            cs = [(t, c) for t, c in self.const_candidates() if isinstance(c.value, int) and not isinstance(c.value, bool) and 1 <= c.value <= 65535 and c.value * bits <= max(budget, bits) and (bits > 0 or c.value <= 40)]
             if cs:
                 cap_text, c = d(st.sampled_from(cs))
                 cap = c.value
